@@ -117,6 +117,7 @@ func (s *loopSet) translate(name string) string {
 	t.asBound = map[types.Object]types.Object{}
 	t.errFrom = map[types.Object]*fnSig{}
 	t.collectFacts()
+	t.bigCheck() // stage 10 (loops_big.go): the ownership discipline for *big.Int
 	// variables: unique, usable names
 	byName := map[string][]types.Object{}
 	usedNames := map[string]bool{}
@@ -343,6 +344,7 @@ func (s *loopSet) translate(name string) string {
 		doc += "; the function writes into the array of " + strings.Join(ns, ", ") + ": the last component" +
 			map[bool]string{true: "s", false: ""}[len(ns) > 1] + " of the result is the content of that array (the whole slice / array that was passed) on return"
 	}
+	doc += t.bigDoc() // stage 10 (loops_big.go)
 	if t.assumedNoWrap {
 		doc += "; ASSUMPTION (not checked here): in its loops `for i := a; i < b; i += k` the addition does not wrap around before the condition fails"
 	}
@@ -515,6 +517,9 @@ func (t *loopTr) block(list []ast.Stmt, ind string, m blockMode, k func(ind stri
 	case *ast.BlockStmt:
 		return t.block(append(append([]ast.Stmt{}, s.List...), list[1:]...), ind, m, k)
 	case *ast.ReturnStmt:
+		if out, ok := t.bigReturn(s, list, ind, m, k); ok {
+			return out // stage 10 (loops_big.go): bare return, return f(g(…))
+		}
 		if c, sig := t.tupleRetCall(s); c != nil {
 			return t.returnCall(s, c, sig, list, ind, m)
 		}
@@ -611,6 +616,9 @@ func (t *loopTr) block(list []ast.Stmt, ind string, m blockMode, k func(ind stri
 				out = let(ind, bs[i].name, bs[i].leanType(), bs[i].val, out)
 			}
 			return out
+		}
+		if out, ok := t.bigModInverseStmt(s, list, ind, m, rest); ok {
+			return out // stage 10 (loops_big.go)
 		}
 		if c, sig, lhs, tok := t.flowCallOf(s); c != nil {
 			var argNodes []ast.Node
@@ -733,6 +741,9 @@ func (t *loopTr) simple(st ast.Stmt) []binding {
 			}
 			if o, m := t.hashCall(c); o != nil {
 				return t.hashStmt(s, c, o, m)
+			}
+			if o := t.bigMutCall(c); o != nil {
+				return t.bigStmt(s, c, o) // stage 10 (loops_big.go)
 			}
 		}
 		return t.copyStmt(s)
